@@ -332,13 +332,14 @@ func sessEBP(c CaseC12, a *hx.Arena) (hx.SessionRun, *hx.Failure) {
 		}
 		return nil
 	}
+	first := got.Data() // an encoding handed to the caller; the caller may append to it later
 	mutate := func() {
 		got.SetSap(got.Sap() ^ 0x5A)
 		got.SetSapFlag(true)
 		got.SetTimeFlag(true)
 		got.SetEBPTime(got.EBPTime().Add(1e9))
 	}
-	return hx.SessionRun{Probes: []hx.Probe{probe}, Mutate: mutate}, nil
+	return hx.SessionRun{Probes: []hx.Probe{probe}, Mutate: mutate, Extend: func() { appendJunk(first) }}, nil
 }
 
 func varyEBP(t *rapid.T, c CaseC12) CaseC12 {
